@@ -20,9 +20,9 @@ vars == <<cfg, st, stop_at, lastask>>
 Init == /\ cfg \in [d : 1..MaxD, inner : 1..MaxInner, max_iter : 0..MaxSweeps]
         /\ stop_at \in 0..MaxSweeps               \* the sweep after which the error is below tol (0: never)
         /\ st = Start(cfg)
-        /\ lastask = <<>>
-DoAskX == st.pc = "askX" /\ st' = AskX(cfg, st) /\ lastask' = <<"X", st.layer, XDeps(cfg, st)>> /\ UNCHANGED <<cfg, stop_at>>
-DoAskW == st.pc = "askW" /\ st' = AskW(cfg, st) /\ lastask' = <<"W", st.layer, WDeps(cfg, st)>> /\ UNCHANGED <<cfg, stop_at>>
+        /\ lastask = [kind |-> "none", layer |-> 0, deps |-> [j \in {} |-> 0]]
+DoAskX == st.pc = "askX" /\ st' = AskX(cfg, st) /\ lastask' = [kind |-> "X", layer |-> st.layer, deps |-> XDeps(cfg, st)] /\ UNCHANGED <<cfg, stop_at>>
+DoAskW == st.pc = "askW" /\ st' = AskW(cfg, st) /\ lastask' = [kind |-> "W", layer |-> st.layer, deps |-> WDeps(cfg, st)] /\ UNCHANGED <<cfg, stop_at>>
 DoAssign == st.pc = "assign" /\ st' = Assign(cfg, st) /\ UNCHANGED <<cfg, stop_at, lastask>>
 DoClip == st.pc = "clip" /\ st' = Clip(cfg, st) /\ UNCHANGED <<cfg, stop_at, lastask>>
 DoRecord == st.pc = "record" /\ st' = Record(cfg, st, st.sweep = stop_at) /\ UNCHANGED <<cfg, stop_at, lastask>>
